@@ -26,7 +26,7 @@ fn exec_line(line: &str) -> String {
         Some("sl") => ra::exec_sl(line),
         Some("world") => world::exec(line),
         Some("crashpt") => crash::exec(&toks),
-        Some("poll") => poller::exec(&toks, line).unwrap_or_else(|| "bad-op".into()),
+        Some("poll") | Some("pollr") => poller::exec(&toks, line).unwrap_or_else(|| "bad-op".into()),
         Some("slx") => ra::exec_slx(&toks),
         Some("slaba") => ra::exec_slaba(),
         Some("skip") => ra::exec_skip(&toks),
@@ -86,8 +86,10 @@ fn main() {
             let seed: u64 = args[2].parse().unwrap();
             let count: usize = args[3].parse().unwrap();
             for g in poller::grid() { emit(g); }
+            // the same grid through the thread's real entry point
+            for g in poller::grid() { emit(g.replacen("poll ", "pollr ", 1)); }
             let mut rng = rng::Rng::new(seed ^ 0xC13);
-            for _ in 0..count { emit(poller::gen_poll(&mut rng)); }
+            for i in 0..count { let l = poller::gen_poll(&mut rng); if i % 4 == 0 { emit(l.replacen("poll ", "pollr ", 1)); } emit(l); }
         }
         Some("worldgen") => {
             let seed: u64 = args[2].parse().unwrap();
